@@ -2,6 +2,7 @@ package c06
 
 import (
 	"fmt"
+	"github.com/lianxiangcloud/linkchain/libs/crypto"
 	"math/big"
 
 	cfg "github.com/lianxiangcloud/linkchain/config"
@@ -303,6 +304,21 @@ func (w *world) genCreate(pending map[common.Hash]*intent) {
 	tx, err := chainkit.NewContractCreation(w.acct(a), w.nonce[a], v, gas, code)
 	if err != nil {
 		return
+	}
+	// the address of the contract-to-be is predictable: sometimes another account pays tokens (and coin) to it
+	// first, in the same block or an earlier one
+	if it.Ctor == "deploy" && !it.LowGas && w.r.Chance(0.25) {
+		b := (a + 1 + w.r.Intn(numAccounts-1)) % numAccounts
+		addr := crypto.CreateAddress(w.acct(a).Addr, w.nonce[a], code)
+		t := w.tokens[w.r.Intn(len(w.tokens))]
+		if pv := w.tokenValue(b, t); pv.Sign() > 0 {
+			ptx := types.NewTokenTransaction(t, w.nonce[b], addr, pv, uint64(types.MinGasLimit), price, nil)
+			if ptx.Sign(types.GlobalSTDSigner, w.acct(b).Key) == nil {
+				if w.submit(pending, ptx, &intent{Kind: "token", From: w.acct(b).Addr, To: addr, Token: t, Value: pv, Gas: uint64(types.MinGasLimit), acct: b}) {
+					w.c.Count("submitted:token-to-address-of-contract-to-be", 1)
+				}
+			}
+		}
 	}
 	w.submit(pending, tx, it)
 }
@@ -628,6 +644,8 @@ type blockModel struct {
 	issued     map[common.Address]*big.Int // by ISSUE (designed exception)
 	toKilled   map[common.Address]*big.Int // asset -> value delivered to a contract after it self-destructed earlier in the same block
 	toKilledEv []map[string]interface{}
+	wiped      map[common.Address]*big.Int // token -> value an address held when a contract was created on top of it
+	wipedEv    []map[string]interface{}
 	txIndex    int
 	failed     int
 	notes      []string
@@ -713,7 +731,7 @@ func (w *world) credit(m *blockModel, to, token common.Address, v *big.Int) {
 // block order, the receipts' status and gasUsed (observed) and the generator's intent.
 func (w *world) replay(res *stepResult, pending map[common.Hash]*intent) (*blockModel, []map[string]interface{}, error) {
 	m := &blockModel{bal: w.cur.clone(), hidden: new(big.Int).Set(w.hidden), fees: new(big.Int),
-		destroyed: map[common.Address]*big.Int{}, issued: map[common.Address]*big.Int{}, toKilled: map[common.Address]*big.Int{}}
+		destroyed: map[common.Address]*big.Int{}, issued: map[common.Address]*big.Int{}, toKilled: map[common.Address]*big.Int{}, wiped: map[common.Address]*big.Int{}}
 	txs := res.Block.Data.Txs
 	if len(res.Receipts) != len(txs) {
 		return nil, nil, fmt.Errorf("%d receipts for %d txs", len(res.Receipts), len(txs))
@@ -762,6 +780,15 @@ func (w *world) replay(res *stepResult, pending map[common.Hash]*intent) (*block
 				ci.Addr = rc.ContractAddress
 				if ci.Addr == lkc {
 					return nil, nil, fmt.Errorf("successful creation without contract address in the receipt")
+				}
+				// tokens the address already held (it is predictable: CreateAddress(sender, nonce, code), anybody can
+				// pay to it beforehand) have to survive the creation like the native coin does
+				for t, amt := range m.bal[ci.Addr] {
+					if t != lkc && amt.Sign() > 0 {
+						addTo(m.wiped, t, amt)
+						m.wipedEv = append(m.wipedEv, map[string]interface{}{"address": ci.Addr.Hex(), "created_by_tx": m.txIndex, "token": t.Hex(), "held": amt.String()})
+						w.c.Count("creations_over_token_holding_address", 1)
+					}
 				}
 				m.bal.add(ci.Addr, lkc, it.Value)
 				w.know(ci.Addr)
@@ -821,7 +848,7 @@ func assetName(t common.Address) string {
 // checkBlock compares the observed post-state with the laws and with the reference ledger.
 func (w *world) checkBlock(res *stepResult, m *blockModel, trace []map[string]interface{}, before balances, hiddenBefore *big.Int) (fatal bool) {
 	c := w.c
-	burned := false
+	burned, wipedSeen := false, false
 	after, hiddenAfter := w.cur, w.hidden
 	wit := func(extra map[string]interface{}) map[string]interface{} {
 		out := map[string]interface{}{"height": res.Block.Height, "txs": trace}
@@ -868,6 +895,14 @@ func (w *world) checkBlock(res *stepResult, m *blockModel, trace []map[string]in
 		key := "conservation/" + assetName(t) + "/created"
 		if diff.Sign() < 0 {
 			key = "conservation/" + assetName(t) + "/destroyed"
+			if k := m.wiped[t]; k != nil && new(big.Int).Neg(diff).Cmp(k) == 0 {
+				// exactly the tokens that addresses held when contracts were created on top of them
+				wipedSeen = true
+				c.Count("tokens_wiped_by_creation_over_holder", 1)
+				c.Violation(keyWipe, fmt.Sprintf("height %d token %s: %v held by address(es) on which a contract was then created vanished with the creation (supply %v, law demands %v)",
+					res.Block.Height, t.Hex(), k, got, want), map[string]interface{}{"height": res.Block.Height, "events": m.wipedEv, "txs": trace})
+				continue
+			}
 			if k := m.toKilled[t]; k != nil && new(big.Int).Neg(diff).Cmp(k) == 0 {
 				// exactly the value that was sent to contracts which an earlier transaction of the same
 				// block had self-destructed: a known class, reported once; the chain goes on
@@ -919,6 +954,22 @@ func (w *world) checkBlock(res *stepResult, m *blockModel, trace []map[string]in
 			}
 		}
 	}
+	if wipedSeen {
+		// the reference ledger keeps the wiped tokens on the new contract's address; nothing else may differ
+		var rest []map[string]string
+		for _, d := range diffs {
+			hit := false
+			for _, ev := range m.wipedEv {
+				if ev["address"] == d["account"] && ev["token"] == d["asset"] {
+					hit = true
+				}
+			}
+			if !hit {
+				rest = append(rest, d)
+			}
+		}
+		diffs = rest
+	}
 	if burned {
 		// the reference ledger keeps the burned value on the dead contract's address; nothing else may differ
 		var rest []map[string]string
@@ -954,6 +1005,7 @@ func (w *world) checkBlock(res *stepResult, m *blockModel, trace []map[string]in
 }
 
 const keyBurn = "conservation/value-sent-to-contract-selfdestructed-earlier-in-block-burned"
+const keyWipe = "conservation/tokens-held-by-address-wiped-by-contract-creation"
 
 // ---------------------------------------------------------------- the chain case
 
